@@ -438,6 +438,34 @@ def alias_probe(case, pomdp):
     return out
 
 
+def vcopy(x):
+    """An equal but not identical copy of a state / action / observation label (labels are values)."""
+    try:
+        from frozendict import frozendict
+        if isinstance(x, frozendict):
+            return frozendict({k: v for k, v in x.items()})
+    except ImportError:
+        pass
+    if isinstance(x, tuple) and hasattr(x, "_fields"):
+        return type(x)(*tuple(x))
+    return x
+
+
+def build_decoy(dom):
+    """Another model of the same class, bigger and free of walls, built and queried while the model under
+    test is in use: instances must not share state."""
+    c = {"GridWorld": dict(dom=dom, rows=["s....", ".....", ".....", "....."], SPN=1, SPD=2, rep=dict(opts="explicit"), **gw_default_opts()),
+         "WindyGridWorld": dict(dom=dom, rows=["@....", ".....", ".....", "....."], start=["@"], goal=["$"], wall=["#"], fr=[], SC=-2, BC=-2,
+                                WN=1, WD=2, GN=1, GD=2, rep=dict(opts="explicit")),
+         "HeavenOrHell": dict(dom=dom, rows=["s....", ".....", ".....", "....."], CN=1, CD=2, SC=-2, HR=1, LR=-1, GN=1, GD=2, rep=dict(opts="explicit")),
+         "Tiger": dict(dom=dom, CN=1, CD=2, GN=1, GD=2, rep={}),
+         "LoadUnload": dict(dom=dom, n=9, GN=1, GD=2, rep={}),
+         "CliffWalking": dict(dom=dom, GN=1, GD=1, rep={})}[dom]
+    decoy = build(c)
+    len(decoy.state_list)
+    return decoy
+
+
 def _observe(case, mutate, np):
     dom = case["dom"]
     d = {"dom": dom, "error": None, "calls": 0}
@@ -459,6 +487,11 @@ def _observe(case, mutate, np):
     except Exception as e:                      # noqa: BLE001
         d["error"] = err("action_list", e)
         return d
+    try:
+        decoy = build_decoy(dom)        # noqa: F841 - kept alive until the end of the dump
+    except Exception as e:              # noqa: BLE001
+        d["error"] = err("construct", e)
+        return d
     idx = {s: i for i, s in enumerate(sl)}
     aidx = {a: i for i, a in enumerate(al)}
     d["discount"] = num(getattr(obj, "discount_rate", None))
@@ -467,6 +500,7 @@ def _observe(case, mutate, np):
     d["abs"], d["acts"], d["rows"] = [], [], []
     try:
         for s in sl:
+            s = vcopy(s)
             stage = "is_absorbing"
             d["abs"].append(1 if obj.is_absorbing(s) else 0)
             stage = "actions"
@@ -474,6 +508,7 @@ def _observe(case, mutate, np):
             d["acts"].append([(aidx.get(a, -1), lab(a)) for a in acts])
             rows = []
             for a in acts:
+                a = vcopy(a)
                 stage = "next_state_dist"
                 dist = obj.next_state_dist(s, a)
                 d["calls"] += 1
@@ -482,7 +517,7 @@ def _observe(case, mutate, np):
                     r = None
                     if p > 0:
                         stage = "reward"
-                        r = num(obj.reward(s, a, ns))
+                        r = num(obj.reward(s, a, vcopy(ns)))
                         stage = "next_state_dist"
                     ent.append((idx.get(ns, -1), lab(ns), num(p), r))
                 rows.append(ent)
@@ -496,7 +531,7 @@ def _observe(case, mutate, np):
             oidx = {o: i for i, o in enumerate(ol)}
             d["olist"] = [lab(o) for o in ol]
             stage = "observation_dist"
-            d["obs"] = [[[(oidx.get(o, -1), lab(o), num(p)) for o, p in obj.observation_dist(a, ns).items()] for ns in sl] for a in al]
+            d["obs"] = [[[(oidx.get(o, -1), lab(o), num(p)) for o, p in obj.observation_dist(vcopy(a), vcopy(ns)).items()] for ns in sl] for a in al]
     except Exception as e:                      # noqa: BLE001
         d["error"] = err(stage, e)
         return d
@@ -676,9 +711,9 @@ def wf_pyjudge(rec):
         T_ = rec["T"][s - 1]
         if not T_:
             cl.add("no-action")
+        if any(not row_ok(row) for row in T_):
+            cl.add("transition-not-normalised")
         if not rec["abs"][s - 1]:
-            if any(not row_ok(row) for row in T_):
-                cl.add("transition-not-normalised")
             if any(e[1] > 0 and rec["RF"][s - 1][j][k] == 0 for j, row in enumerate(T_) for k, e in enumerate(row)):
                 cl.add("reward-not-finite")
         if rec["NO"] > 0:
@@ -1407,7 +1442,9 @@ def run(ctx):
         "Fraction implementation on every 5th case; C20_WellFormed verdicts cross-checked against a python judge on every 5th system)",
         "float probabilities are logged as round(p*1e8); a row of n entries counts as normalised within n units (derived in C20_WellFormed)",
         "direct float results are compared with exact rationals at 1e-9 relative; planned values at 1e-10 * cells / success_prob + 1e-9",
-        "rows of states for which is_absorbing holds are not judged (nothing in the semantics depends on them)",
+        "of the rows of states for which is_absorbing holds only normalisation is judged (their successors are never expanded)",
+        "states / actions are values: every query is made with an equal COPY of the label, and another model of the same class "
+        "(a bigger all-free layout) is built between reading state_list and querying the transitions",
         "dynamics of the agent standing inside a wall tile and the shape of the initial distribution are implementation-shaped (DRIFT)",
     ]
     t0 = time.time()
